@@ -110,7 +110,8 @@ func caseJSON(m *monitor, r *core.Rand) string {
 	if !m.call("json.Marshal", func() { b, err = ctyjson.Marshal(v, cons) }) || err != nil {
 		return "json(marshal failed) " + gs(v)
 	}
-	other, _ := ctyjson.Marshal(cty.UnknownAsNull(codecValue(r, false)), cty.DynamicPseudoType)
+	var other []byte
+	core.Guard(func() { other, _ = ctyjson.Marshal(cty.UnknownAsNull(codecValue(r, false)), cty.DynamicPseudoType) })
 	text := fmt.Sprintf("json %s as %#v", b, cons)
 	decode := func(buf []byte, ty cty.Type, class string) {
 		var out cty.Value
@@ -155,8 +156,9 @@ func caseJSONWrapper(m *monitor, r *core.Rand) string {
 	if wty == cty.DynamicPseudoType {
 		wty = v.Type()
 	}
-	tyJSON, err := ctyjson.MarshalType(wty)
-	if err != nil {
+	var tyJSON []byte
+	var err error
+	if o := core.Guard(func() { tyJSON, err = ctyjson.MarshalType(wty) }); o.Panicked || err != nil {
 		return "jsonwrapper(type not serializable)"
 	}
 	valDoc := "null"
@@ -165,11 +167,13 @@ func caseJSONWrapper(m *monitor, r *core.Rand) string {
 	case 1:
 		valDoc = []string{"[]", "{}", "[null]", `{"a":null}`, `""`, "0"}[r.Intn(6)]
 	default:
-		if cv, e := convert.Convert(v, wty); e == nil {
-			if b, e2 := ctyjson.Marshal(cty.UnknownAsNull(cv), cv.Type()); e2 == nil {
-				valDoc = string(b)
+		core.Guard(func() {
+			if cv, e := convert.Convert(v, wty); e == nil {
+				if b, e2 := ctyjson.Marshal(cty.UnknownAsNull(cv), cv.Type()); e2 == nil {
+					valDoc = string(b)
+				}
 			}
-		}
+		})
 	}
 	w := fmt.Sprintf(`{"type":%s,"value":%s}`, tyJSON, valDoc)
 	if r.Chance(1, 4) {
@@ -211,7 +215,8 @@ func caseMsgpack(m *monitor, r *core.Rand) string {
 	if !m.call("msgpack.Marshal", func() { b, err = msgpack.Marshal(v, cons) }) || err != nil {
 		return "msgpack(marshal failed) " + gs(v)
 	}
-	other, _ := msgpack.Marshal(codecValue(r, true), cty.DynamicPseudoType)
+	var other []byte
+	core.Guard(func() { other, _ = msgpack.Marshal(codecValue(r, true), cty.DynamicPseudoType) })
 	text := fmt.Sprintf("msgpack %x as %#v", b, cons)
 	decode := func(buf []byte, ty cty.Type, class string) {
 		var out cty.Value
@@ -256,8 +261,9 @@ func caseMsgpackWrapper(m *monitor, r *core.Rand) string {
 	if wty == cty.DynamicPseudoType {
 		wty = v.Type()
 	}
-	tyJSON, err := ctyjson.MarshalType(wty)
-	if err != nil || len(tyJSON) > 60000 {
+	var tyJSON []byte
+	var err error
+	if o := core.Guard(func() { tyJSON, err = ctyjson.MarshalType(wty) }); o.Panicked || err != nil || len(tyJSON) > 60000 {
 		return "msgpackwrapper(type not serializable)"
 	}
 	val := []byte{0xc0}
@@ -266,11 +272,13 @@ func caseMsgpackWrapper(m *monitor, r *core.Rand) string {
 	case 1:
 		val = [][]byte{{0x90}, {0x80}, {0xd4, 0, 0}, {0x91, 0xc0}, {0xa0}, {0x00}}[r.Intn(6)]
 	default:
-		if cv, e := convert.Convert(v, wty); e == nil {
-			if b, e2 := msgpack.Marshal(cv, cv.Type()); e2 == nil {
-				val = b
+		core.Guard(func() {
+			if cv, e := convert.Convert(v, wty); e == nil {
+				if b, e2 := msgpack.Marshal(cv, cv.Type()); e2 == nil {
+					val = b
+				}
 			}
-		}
+		})
 	}
 	w := append([]byte{0x92}, append(mpBin(tyJSON), val...)...)
 	var doc []byte
